@@ -52,8 +52,11 @@ def r1_r2_ingestion(repo, rep):
   sub = type(rep)(rep.prop, rep.tier, rep.repo)
   c15.r1_r2_init(repo, sub)
   for i in sub.instances:
-    if 'cast to str' in (i.subject or '') or 'pivot ' in (i.subject or '') or 'astype' in (i.detail or ''):
-      i.rule = 'R1/canonical-ids' if 'str' in (i.subject or '') else 'R2/label-based'
+    if i.rule == 'R1/ingestion-ids':
+      i.rule = 'R1/canonical-ids'
+      rep.instances.append(i)
+    elif i.rule == 'R1/ingestion-pivot':
+      i.rule = 'R2/label-based'
       rep.instances.append(i)
   f = repo.cls('tbrmmdata.TBRMMData').methods['__init__']
   rep.fn(f)
